@@ -813,6 +813,8 @@ class Interp:
                 raise
             except RecursionError:
                 raise
+            except npmodel.Modelled as e:
+                raise InterpRaise(e.exc, self.where())
             except Exception as e:  # native failure inside a summary: an interpreted-program error
                 if isinstance(e, tuple(_EXC.values())) and not isinstance(e, AssertionError):
                     raise InterpRaise(e, self.where(), origin="native")
